@@ -23,7 +23,7 @@ const ALL_CAPS: u32 = frames::CAP_20 | frames::CAP_40 | frames::CAP_50 | frames:
 fn level(t: Tier) -> Level {
     Level {
         category: "model_checking",
-        rule: if t.thorough() { "model GATE (40 actions: DF11 CA 0/3/4/5/7, DF17, DF20/21 with empty MB, five BDS 1,7 advertisements, 1,7 with a reserved bit, 2,0, three 3,0, valid 4,0, 5,0 right/left turn, 6,0 climb/descent, 5,0 with a status bit clear, 4,0 with a reserved bit, an ADS-B velocity squitter, a slow 5,0, two replies with flight status 5/7, five BDS 1,0 reports, two DF18 squitters (CF 5 / 2), a westbound 5,0 shaped like a 6,0, bystander) all orders to depth 5 x {default,-R,-U,-U -R}; register sweeps: every value field of 4,0/5,0/6,0 over its whole range x 3 baselines, the full GS x TAS product, all 32 status-bit subsets, every single reserved bit, BDS 1,7 capability words (single bits, stride), under open and closed gates" } else { "model GATE (40 actions: DF11 CA 0/3/4/5/7, DF17, DF20/21 with empty MB, five BDS 1,7 advertisements, 1,7 with a reserved bit, 2,0, three 3,0, valid 4,0, 5,0 right/left turn, 6,0 climb/descent, 5,0 with a status bit clear, 4,0 with a reserved bit, an ADS-B velocity squitter, a slow 5,0, two replies with flight status 5/7, five BDS 1,0 reports, two DF18 squitters (CF 5 / 2), a westbound 5,0 shaped like a 6,0, bystander) all orders to depth 4 x {default,-R,-U,-U -R}; register sweeps: every value field of 4,0/5,0/6,0 over its whole range x 3 baselines, all 32 status-bit subsets, every single reserved bit, BDS 1,7 capability words (single bits, stride), under open and closed gates" },
+        rule: if t.thorough() { "model GATE (42 actions: DF11 CA 0/3/4/5/7, DF17, DF20/21 with empty MB, five BDS 1,7 advertisements, 1,7 with a reserved bit, 2,0, three 3,0, valid 4,0, 5,0 right/left turn, 6,0 climb/descent, 5,0 with a status bit clear, 4,0 with a reserved bit, an ADS-B velocity squitter, a slow 5,0, four replies with flight status 1/3/5/7, five BDS 1,0 reports, two DF18 squitters (CF 5 / 2), a westbound 5,0 shaped like a 6,0, bystander) all orders to depth 5 x {default,-R,-U,-U -R}; register sweeps: every value field of 4,0/5,0/6,0 over its whole range x 3 baselines, the full GS x TAS product, all 32 status-bit subsets, every single reserved bit, BDS 1,7 capability words (single bits, stride), under open and closed gates" } else { "model GATE (42 actions: DF11 CA 0/3/4/5/7, DF17, DF20/21 with empty MB, five BDS 1,7 advertisements, 1,7 with a reserved bit, 2,0, three 3,0, valid 4,0, 5,0 right/left turn, 6,0 climb/descent, 5,0 with a status bit clear, 4,0 with a reserved bit, an ADS-B velocity squitter, a slow 5,0, four replies with flight status 1/3/5/7, five BDS 1,0 reports, two DF18 squitters (CF 5 / 2), a westbound 5,0 shaped like a 6,0, bystander) all orders to depth 4 x {default,-U} and depth 3 x {-R,-U -R}; register sweeps: every value field of 4,0/5,0/6,0 over its whole range x 3 baselines, all 32 status-bit subsets, every single reserved bit, BDS 1,7 capability words (single bits, stride), under open and closed gates" },
         assumptions: vec![
             "oracle (refmodel/bds.rs): an MB-derived field group changes only if the reference gate of the implementation's own pre-state allows it (CA >= 4 recorded or -R; for 4,0/5,0/6,0 the register advertised or -R) and the MB passes the reference validity of the register the group belongs to, and then equals the Doc 9871 decoding (floor or truncation for signed values); conversely a plausible register (every status bit set, every value field non-zero, limits as stated) that is not weakly valid as an earlier register must be decoded".into(),
             "BDS 4,0 mode/source status bits are left unconstrained in the only-if direction; inputs on which strong and weak validity of an earlier register disagree take the lenient branch (counted as ':may')".into(),
@@ -73,6 +73,9 @@ fn gate_actions() -> Vec<Action> {
     v.push(Action::line("DF20 BDS5,0 120 kt", &frames::df20(A, alt, frames::mb_bds50(&B50 { s_roll: 1, roll_sign: 0, roll: 28, s_trk: 1, trk_sign: 0, trk: 300, s_gs: 1, gs: 60, s_tar: 1, tar_sign: 0, tar: 8, s_tas: 1, tas: 58 }))));
     v.push(Action::line("DF20 FS5 BDS2,0 SPI", &frames::long_ap(20, frames::surv_bits(5, 0, 0, alt), frames::mb_bds20(frames::callsign_codes("SPI5")), A)));
     v.push(Action::line("DF21 FS7 BDS5,0", &frames::long_ap(21, frames::surv_bits(7, 0, 0, sq), valid_bds50(false), A)));
+    // flight status "on the ground" (1) and "alert, on the ground" (3): the register is decoded all the same
+    v.push(Action::line("DF20 FS1 BDS5,0 left turn", &frames::long_ap(20, frames::surv_bits(1, 0, 0, alt), valid_bds50(true), A)));
+    v.push(Action::line("DF21 FS3 BDS6,0 climb", &frames::long_ap(21, frames::surv_bits(3, 0, 0, sq), valid_bds60(false), A)));
     // BDS 1,0 data-link capability reports (every one of them leaves the listed parameters alone):
     // with and without the "Mode S specific services" bit (MB 25), the GICB-changed toggle (MB bit 36 = frame bit 68)
     for (n, mb) in [("plain", 0x10_0000_0000_0000u64), ("services", 0x10_0000_8000_0000), ("toggle36+services", 0x10_0000_8010_0000), ("toggle36", 0x10_0000_0010_0000), ("all-ones", 0x10_FFFF_FFFF_FFFF)] {
@@ -383,7 +386,8 @@ fn run(ctx: &mut Ctx) {
     squitterator::set_observer_coords_from_str(rowmodel::OBSERVER_STR);
     let thorough = ctx.tier.thorough();
     for opts in [&[][..], &["-R"][..], &["-U"][..], &["-U", "-R"][..]] {
-        run_gate(ctx, opts, if thorough { 5 } else { 4 });
+        // quick: depth 4 where the gates matter (no -R), depth 3 under -R
+        run_gate(ctx, opts, if thorough { 5 } else if opts.contains(&"-R") { 3 } else { 4 });
     }
     let mbs = sweep_mbs(thorough);
     let mut job = 0u64;
